@@ -1404,6 +1404,17 @@ def tb_mutate(rng, b):
     return bytes(b)
 
 
+def g_ownalpha(rng):
+    """an automaton over a ranked alphabet (one arity per symbol), small symbol numbers: loaded from text into an automaton with its own alphabet"""
+    A = rand_ta(rng, nmax=4)
+    rank = {}
+    rules = []
+    for (f, ks, p) in A.rules:
+        if rank.setdefault(f, len(ks)) == len(ks):
+            rules.append((f, ks, p))
+    return f"ownalpha {TA(rules, A.finals).tok()}"
+
+
 def g_parse2(rng):
     """two spellings of ONE well-formed description: t0 as the serialiser writes it, t1 with every layout freedom the property's
     quantifier names ("nullary rules written with or without parentheses", blanks, tabs, CR, blank lines, trailing blanks)"""
@@ -1648,7 +1659,7 @@ GENERATORS = {
     "tah_store": g_tah_store, "tah_hist": g_tah_hist,
     "lts": g_lts,
     "nfah_incl": g_nfah_incl, "nfah_inclsim": g_nfah_inclsim, "nfah_cli": g_nfah_cli, "nfah_ops": g_nfah_ops, "nfah_hist": g_nfah_hist,
-    "incl": g_incl, "inclall": g_inclall, "union": g_union, "unionpre": g_unionpre, "mapsx": g_mapsx, "parse2": g_parse2, "uniondisj": g_uniondisj,
+    "incl": g_incl, "inclall": g_inclall, "union": g_union, "unionpre": g_unionpre, "mapsx": g_mapsx, "parse2": g_parse2, "ownalpha": g_ownalpha, "uniondisj": g_uniondisj,
     "isect": g_isect, "isectbu": g_isectbu, "trim": g_trim, "cand": g_cand, "reduce": g_reduce, "simdown": g_simdown, "simup": g_simup,
     "compl": g_compl, "rename": g_rename,
 }
